@@ -171,6 +171,7 @@ func c18Airgapped(r *kit.Run, rec *world.Recording, tier string, classes map[str
 				var perr interface{}
 				var rerr error
 				site := ""
+				kit.Mark(fmt.Sprintf("Machine.ProcessOperation on machine %d after %d operations: %s operation with %s / %s", jb.i, jb.k, jb.opT, jb.m.Path, jb.m.Kind))
 				func() {
 					defer func() {
 						if perr = recover(); perr != nil {
